@@ -9,6 +9,7 @@ import (
 	"net"
 	"strconv"
 	"sync"
+	"sync/atomic"
 	"time"
 
 	"github.com/honeytrap/honeytrap/event"
@@ -584,7 +585,10 @@ func runCase(r *hx.Rand, nconn int, tier string) ([]Step, string) {
 		}
 		if c.hsAck && !c.established {
 			c.established = true
-			time.Sleep(2 * time.Millisecond) // let the reader goroutine block in Read
+			// let the reader goroutine block in Read: wait for the state "every port handler is
+			// parked or has ended" in the runtime's goroutine dump (rsp.go), not for a duration - 2 ms
+			// were not always enough on a loaded machine (thorough tier, load 30: 3 of 2251 cases)
+			waitAllHandlersParked(20 * time.Second)
 		}
 		steps = append(steps, st)
 		if len(evs) > 0 {
@@ -611,6 +615,7 @@ func runCase(r *hx.Rand, nconn int, tier string) ([]Step, string) {
 			}
 		}
 	}
+	waitAllHandlersParked(20 * time.Second) // nothing more can be sent once every handler waits or has ended
 	time.Sleep(2 * time.Millisecond)
 	if extra := v.DrainTx(); len(extra) > 0 {
 		return steps, fmt.Sprintf("%d unsolicited frames after the script", len(extra))
@@ -712,13 +717,18 @@ func runDecoded(in DecIn) ([]DecEv, string) {
 		}
 	}
 	inject(Seg{SIP: in.SIP, DIP: me, SPort: in.SPort, DPort: in.DPort, Seq: in.ISN + 1, Ack: srv, Flags: fACK})
-	time.Sleep(2 * time.Millisecond)
+	waitAllHandlersParked(20 * time.Second) // the port handler waits in Read (a state, not a duration)
 	inject(Seg{SIP: in.SIP, DIP: me, SPort: in.SPort, DPort: in.DPort, Seq: in.ISN + 1, Ack: srv, Flags: fACK | fPSH, Payload: in.Payload})
 	if crash != "" {
 		return nil, crash
 	}
 	var out []DecEv
-	deadline := time.Now().Add(1500 * time.Millisecond)
+	// generous while no decoded-port event was ever missed (a loaded machine), short afterwards
+	decWait := 20 * time.Second
+	if atomic.LoadInt32(&decEventMissed) > 0 {
+		decWait = 1500 * time.Millisecond
+	}
+	deadline := time.Now().Add(decWait)
 	for time.Now().Before(deadline) && len(out) == 0 {
 		for _, e := range cap.take() {
 			m := event.ToMap(e)
@@ -737,9 +747,14 @@ func runDecoded(in DecIn) ([]DecEv, string) {
 		}
 		time.Sleep(300 * time.Microsecond)
 	}
+	if len(out) == 0 {
+		atomic.AddInt32(&decEventMissed, 1)
+	}
 	v.DrainTx()
 	return out, ""
 }
+
+var decEventMissed int32
 
 func coqDecCase(id int, in DecIn, evs []DecEv) string {
 	var es []string
